@@ -114,7 +114,8 @@ class IdentityLinearOperator(ConstantDiagLinearOperator):
         self: Float[LinearOperator, "... #M #N"],
         other: Union[Float[torch.Tensor, "... #M #N"], Float[LinearOperator, "... #M #N"]],
     ) -> Float[LinearOperator, "... M N"]:
-        return DiagLinearOperator(self._diag * other._diagonal())
+        # (not ConstantDiagLinearOperator._mul_matrix: the result is not an identity)
+        return DiagLinearOperator._mul_matrix(self, other)
 
     def _permute_batch(self, *dims: int) -> LinearOperator:
         batch_shape = self.diag_values.permute(*dims, -1).shape[:-1]
